@@ -74,9 +74,9 @@ def run(ctx, col, tier):
     col.assumptions += ["numpy: python-scalar * array keeps the array dtype; astype(T) has dtype T",
                         "np.moveaxis / transpose permute axes as documented"]
 
-    dtype_rule(ctx, col)
-    keynorm(ctx, col)
-    axes(ctx, col)
+    col.guard(dtype_rule, ctx, col)
+    col.guard(keynorm, ctx, col)
+    col.guard(axes, ctx, col)
 
 
 def dtype_rule(ctx, col):
